@@ -28,6 +28,33 @@ def sig_fake_alt_negative(desc, events, inv):
     return True
 
 
+def sig_origin_split_later(desc, events, inv):
+    """F-C15-4: a train with two origin or two destination links. The backward pass of update_times aligns the
+    branches of a split at their join (or at the common end node), so when the PRIMARY branch is the slower one the
+    Fake node that opens the alternate branch is scheduled later than the split it hangs off (alternate edges have
+    duration 0). With a single origin and destination the primary branch is always the fastest and this cannot
+    happen. In the class: only alternate edges into a Fake child, only in scenarios with a two-origin / two-destination
+    train; any primary edge or any other scenario is still a violation."""
+    if inv != "NoLater":
+        return False
+    if not any(t.get("bo", 0) >= 2 or t.get("bd", 0) >= 2 for t in desc.get("trains", [])):
+        return False
+    nets = [e for e in events if e.get("ev") == "Net"]
+    if not nets:
+        return False
+    seen = False
+    for e in nets:
+        ns = e["nodes"]
+        for p, n in enumerate(ns):
+            if n[3] != 0 and ns[n[3]][0] > n[0] + n[1] + 2:
+                return False                      # a primary edge: not this class
+            if n[4] != 0 and ns[n[4]][0] > n[0] + 2:
+                if ns[n[4]][8] != 3:
+                    return False
+                seen = True
+    return seen
+
+
 def sig_short_route(desc, events, inv):
     """F-C15-3 / F-C05-1: the whole route is not longer than 5 miles + the train: SavedSim::update_movement
     (est_time_structs.rs:52) only steps while offset < offset_end - 5 mi or (finished and speed > 0), so a train that
@@ -127,7 +154,8 @@ GROUP = dict(
                                  "only in the pyo3 build of altrios-core",
                                  "times compared at 1 ms resolution with a tolerance of 2 ms"]),
     },
-    sigs={"fake_alt_negative": sig_fake_alt_negative, "short_route": sig_short_route},
+    sigs={"fake_alt_negative": sig_fake_alt_negative, "short_route": sig_short_route,
+          "origin_split_later": sig_origin_split_later},
     fault_models=[dict(cfg="MCDispatch_fault_flip.cfg", expect=["OppExclusive"]),
                   dict(cfg="MCDispatch_fault_lock.cfg", expect=["LockoutExclusive"]),
                   dict(cfg="MCDispatch_fault_prevce.cfg", expect=["Fifo", "Headway"]),
